@@ -49,11 +49,11 @@ CLAIMED = {
             "Trusted: rustc's HIR/MIR, the spec tables transcribed in analyzer/rules/C29.py, and that `==` on NamedType is name equality (C30.EQ). Fails closed if the functions stop being single matches / loop-free.",
             "decision-table extraction from HIR match arms + MIR path enumeration, exhaustive cell-by-cell comparison", False),
     "C20": ("other",
-            "Shared rule driver (call-graph fact) plus, for every diagnostic construction site reachable from the standalone entry, a guard analysis: no site may fire on the `absent` edge of a schema-derived lookup without evidence that a schema is present, and every schema-dependent variant (frozen classification) must be under positive schema evidence - decided per site over dominating edges, for all documents at once.",
+            "Shared rule driver (call-graph fact) plus, for every diagnostic construction site reachable from the standalone entry, a guard analysis: no site may fire on the `absent` edge of a schema-derived lookup without evidence that a schema is present, and every schema-dependent variant (frozen classification) must be under positive schema evidence - decided per site over dominating edges, for all documents at once. The schema-less build carries every component of the AST (C19.FROMAST, shared): a dropped directive would turn a used variable into an unused one.",
             "The schema-(in)dependence classification of diagnostic variants and the enumerated guard idioms are the trusted tables; a new variant or idiom fails closed.",
             "call-graph reachability + dominator edge-fact (GUARD) analysis with type-based schema-evidence over rustc MIR", False),
     "C13": ("other",
-            "Sibling agreement between the three places that compare an extension's kind with a definition's kind (18 sites: all must report on the non-matching branch), first-wins shape of the sticky insert helpers, order discipline of the orphan queue, one FileId per source text, and no per-source history in the builders (no loop-carried local of the per-source method decides a branch of the definitions loop; no builder field is written outside that loop).",
+            "Sibling agreement between the three places that compare an extension's kind with a definition's kind (18 sites: all must report on the non-matching branch), first-wins shape of the sticky insert helpers, order discipline of the orphan queue, one FileId per source text, and no per-source history in the builders (no loop-carried local of the per-source method decides a branch of the definitions loop; no builder field is written outside that loop). Each schema-side from_ast constructor adds all of the definition's own components before it applies the queued (earlier-standing) extensions, so the position of an extension does not decide precedence or order (C13.DEFFIRST).",
             "Decides necessary structural conditions of order-independence; does not compare diagnostics of sequential and concatenated builds.",
             "sibling (SIB) must-pass-through rule per match edge over rustc MIR; who-calls on the orphan queue", False),
     "C21": ("other",
@@ -85,7 +85,7 @@ CLAIMED = {
             "Clause-level: numeric edge values and serde_json_bytes' predicates are not decided.",
             "decision-table extraction over HIR match arms and if-chains", False),
     "C15": ("other",
-            "For each invariant in the statement, `invariant broken => a diagnostic is pushed` on the validator's own branch structure (region decision tables over loop bodies: lookup absent, wrong kind, not output/input type, missing interface field, invalid implementation type/arguments, non-null input cycle, reserved name, no query root, reused root); the kind predicates' tables over the six ExtendedType variants; every element reaches its validator on every path (call chain from validate_schema); FindRecursiveInputValue follows exactly non-null named references; plus the built-in scalar bookkeeping rules shared with C16.",
+            "For each invariant in the statement, `invariant broken => a diagnostic is pushed` on the validator's own branch structure (region decision tables over loop bodies: lookup absent, wrong kind, not output/input type, missing interface field, invalid implementation type/arguments, non-null input cycle, reserved name, no query root, reused root); the kind predicates' tables over the six ExtendedType variants; every element reaches its validator on every path (call chain from validate_schema); FindRecursiveInputValue follows exactly non-null named references; plus the built-in scalar bookkeeping rules shared with C16. The implemented-field type compatibility table (C29.IMPL) is shared.",
             "Decides the one-directional implication on branch structure and the extracted tables; helper predicates such as Schema::is_subtype and the iterator adaptors feeding the loops are taken as given. Not a proof that Valid<Schema> implies the invariants.",
             "region decision tables (MIR path enumeration per loop body), variant tables, loop-relative must-pass-through, may-derive slices", False),
     "C16": ("other",
@@ -117,7 +117,7 @@ CLAIMED = {
             "Presence of a handler per rule is a necessary condition only; that each handler's condition equals the spec's, i.e. verdict agreement with graphql-js, is not decided (not decidable by this family).",
             "call-graph reachability from entry points to diagnostic construction sites (aggregates in MIR) against a rule->variant registry; who-writes / provenance for the memo scope", False),
     "C32": ("other",
-            "The determinism sentence decided structurally over all 517 library functions of apollo-smith (no entropy source other than the caller's Unstructured / RandomProvider; no std HashMap/HashSet iteration into output except one allow-listed infeasible fallback), plus structural conditions of validity (object / interface extensions are told which type they extend, so an interface already implemented is not picked again - a genuine defect found and repaired; reachable_fragment_names is a fixpoint, worklist or repeat-while-changed, not one pass over the definitions): the interface-field backfill, which reads only direct parents, iterates a topological (parents-first) order of the implements graph; type_name() returns only names that passed the `not yet used` loop and records them; the name alphabets are inside the GraphQL Name grammar; unused fragments are pruned by reachability from operations.",
+            "The determinism sentence decided structurally over all 517 library functions of apollo-smith (no entropy source other than the caller's Unstructured / RandomProvider; no std HashMap/HashSet iteration into output except one allow-listed infeasible fallback), plus structural conditions of validity (object / interface extensions are told which type they extend, so an interface already implemented is not picked again - a genuine defect found and repaired; reachable_fragment_names is a fixpoint, worklist or repeat-while-changed, not one pass over the definitions): the interface-field backfill, which reads only direct parents, iterates a topological (parents-first) order of the implements graph; type_name() returns only names that passed the `not yet used` loop and records them; the name alphabets are inside the GraphQL Name grammar; unused fragments are pruned by reachability from operations; reader/writer agreement on input object fields (values of an input object type are built from its first definition only, so an `extend input` gives every non-null field without default its inner type - a second genuine defect, found and repaired).",
             "That every generated document parses and validates is not decided. arbitrary::Unstructured and petgraph::toposort are trusted.",
             "resolved-callee inventory over rustc MIR, loop-source provenance (may-derive slice), dominating-edge facts, const evaluation", False),
     "C33": ("other",
@@ -129,11 +129,11 @@ CLAIMED = {
             "Equality of the re-parsed AST and byte-identical re-serialization are not decided; the CST->AST conversion builds its targets with struct expressions, whose field completeness the compiler enforces.",
             "typed-HIR use analysis per destructured field, MIR variant-region dispatch tables with symbolic call arguments, must-pass-through summaries (fixpoint over the printer's call graph), who-writes", False),
     "C14": ("other",
-            "Handler registry for the type system: each of 47 type-system validation rules of spec section 3 (as split into diagnostic kinds: schema roots, unique names, reserved names, extension kinds, non-empty field/member/value sets, output/input types, implements contracts, input-object cycles, directive definitions and applications, default values) has a diagnostic of the matching kind constructed in a function reachable from the schema build / validation entries and, for kind-specific rules, through the validator of that kind of definition, which must itself be reachable from validate_schema. Plus a contradiction rule over the validators (C14.KINDGATE): where a referenced type name is resolved and some way of failing to resolve to the required kind is reported within a loop iteration, every way is (`undefined` and `defined, of another kind` alike), except built-in scalars that validate_schema inserts afterwards.",
+            "Handler registry for the type system: each of 47 type-system validation rules of spec section 3 (as split into diagnostic kinds: schema roots, unique names, reserved names, extension kinds, non-empty field/member/value sets, output/input types, implements contracts, input-object cycles, directive definitions and applications, default values) has a diagnostic of the matching kind constructed in a function reachable from the schema build / validation entries and, for kind-specific rules, through the validator of that kind of definition, which must itself be reachable from validate_schema. Plus a contradiction rule over the validators (C14.KINDGATE): where a referenced type name is resolved and some way of failing to resolve to the required kind is reported within a loop iteration, every way is (`undefined` and `defined, of another kind` alike), except built-in scalars that validate_schema inserts afterwards. The (interface field type, implementing field type) variant table of IsValidImplementationFieldType is decided by C29.IMPL, shared.",
             "Presence of a reachable handler per rule is a necessary condition only; that each handler's condition equals the spec's, i.e. agreement of verdicts with graphql-js over all schema documents, is not decided (not decidable by this family). The branch-level implication `invariant broken => diagnostic` for the invariants of the statement is decided under C15.",
             "call-graph reachability from entry points through per-kind validators to diagnostic construction sites (aggregates in rustc MIR) against a rule->variant registry", False),
     "C19": ("other",
-            "Provenance conditions of the executable -> AST lowering that serialization goes through: in the five to_ast lowerings every AST field is drawn from the same-named field of self (the struct expressions make the compiler enforce that a value is given, these rules that it is the right one - alias/name, fragment_name/type_condition are all Names); Selection variants map to the same AST variant of the same node with its location; SelectionSet lowers every selection in order; the document emits anonymous, named, fragments in map order with each node's own location; a FieldSet serializes every selection of its set.",
+            "Provenance conditions of the executable -> AST lowering that serialization goes through: in the five to_ast lowerings every AST field is drawn from the same-named field of self (the struct expressions make the compiler enforce that a value is given, these rules that it is the right one - alias/name, fragment_name/type_condition are all Names); Selection variants map to the same AST variant of the same node with its location; SelectionSet lowers every selection in order; the document emits anonymous, named, fragments in map order with each node's own location; a FieldSet serializes every selection of its set. The opposite lowering, AST to executable (from_ast.rs), carries every field of the ast Field / FragmentSpread / InlineFragment / OperationDefinition / FragmentDefinition (C19.FROMAST).",
             "Equality of the re-parsed and re-validated document with the original is not decided; printing of the lowered AST is decided under C08/C09 and typing of a re-parsed document under C18.",
             "symbolic (access-path) evaluation of aggregates and straight-line iterator pipelines, variant-region dispatch over rustc MIR", False),
     "C24": ("other",
